@@ -797,7 +797,7 @@ static void marshal_to (DBusMessage *m, OutBuf *o) { ob_reset (o); marshal_hex (
 /* OOMEDIT <hex> <op> : every failing-allocation index of one header edit */
 static void cmd_oomedit (int argc, char **argv)
 {
-  size_t n; unsigned char *buf; OutBuf pre = { 0 }, post = { 0 }, want = { 0 }; int k, bad = 0, nfail = 0; char first[200] = "-";
+  size_t n; unsigned char *buf; OutBuf pre = { 0 }, post = { 0 }, want = { 0 }; int k, bad = 0, nfail = 0, cold, total = 0; char first[200] = "-";
   DBusMessageLoader *l; DBusMessage *m;
   if (argc < 3 || !(buf = unhex (argv[1], &n))) { ob_puts (&out, "ERR badargs"); return; }
   m = load_msg (buf, n, &l);
@@ -806,9 +806,16 @@ static void cmd_oomedit (int argc, char **argv)
   if (apply_edit (m, argv[2]) != 1) { ob_puts (&out, "ERR edit-failed-without-injection"); dbus_message_unref (m); _dbus_message_loader_unref (l); free (buf); return; }
   marshal_to (m, &want);
   dbus_message_unref (m); _dbus_message_loader_unref (l);
+  /* Two passes.  cold=0: message objects are recycled through libdbus' message cache (their strings keep the
+   * capacity of earlier, larger contents, so some reallocations never happen); block counts are compared.
+   * cold=1: the cache is emptied before every run by holding six live messages, so the message under test is
+   * freshly and tightly allocated and every growth of its header really allocates; no block count here, because
+   * what the cache holds differs before and after. */
+  for (cold = 0; cold < 2; cold++)
   for (k = 0; k < 400; k++)
     {
-      int b0, b1, ret, fired;
+      int b0, b1, ret, fired, hi; DBusMessage *hold[6];
+      if (cold) for (hi = 0; hi < 6; hi++) hold[hi] = dbus_message_new (DBUS_MESSAGE_TYPE_SIGNAL);
       b0 = _dbus_get_malloc_blocks_outstanding ();
       m = load_msg (buf, n, &l);
       fa_arm (k);
@@ -817,21 +824,25 @@ static void cmd_oomedit (int argc, char **argv)
       if (!fired)
         {
           dbus_message_unref (m); _dbus_message_loader_unref (l);
+          if (cold) for (hi = 0; hi < 6; hi++) if (hold[hi]) dbus_message_unref (hold[hi]);
           break;
         }
+      total++;
       if (ret == 0)
         {
           nfail++;
           marshal_to (m, &post);
-          if (post.len != pre.len || memcmp (post.s, pre.s, pre.len)) { if (!bad++) { snprintf (first, sizeof first, "k=%d:failed-edit-changed-message", k); fprintf (stderr, "PRE  %s\nPOST %s\n", pre.s, post.s); } }
-          if (apply_edit (m, argv[2]) != 1) { if (!bad++) snprintf (first, sizeof first, "k=%d:retry-failed", k); }
+          if (post.len != pre.len || memcmp (post.s, pre.s, pre.len)) { if (!bad++) { snprintf (first, sizeof first, "k=%d%s:failed-edit-changed-message", k, cold ? "c" : ""); fprintf (stderr, "PRE  %s\nPOST %s\n", pre.s, post.s); } }
+          if (apply_edit (m, argv[2]) != 1) { if (!bad++) snprintf (first, sizeof first, "k=%d%s:retry-failed", k, cold ? "c" : ""); }
         }
       marshal_to (m, &post);
-      if (post.len != want.len || memcmp (post.s, want.s, want.len)) { if (!bad++) snprintf (first, sizeof first, "k=%d:result-differs(ret=%d)", k, ret); }
+      if (post.len != want.len || memcmp (post.s, want.s, want.len)) { if (!bad++) snprintf (first, sizeof first, "k=%d%s:result-differs(ret=%d)", k, cold ? "c" : "", ret); }
       dbus_message_unref (m); _dbus_message_loader_unref (l);
       b1 = _dbus_get_malloc_blocks_outstanding ();
-      if (b1 != b0) { if (!bad++) snprintf (first, sizeof first, "k=%d:leak(%d->%d)", k, b0, b1); }
+      if (!cold && b1 != b0) { if (!bad++) snprintf (first, sizeof first, "k=%d:leak(%d->%d)", k, b0, b1); }
+      if (cold) for (hi = 0; hi < 6; hi++) if (hold[hi]) dbus_message_unref (hold[hi]);
     }
+  k = total;
   ob_printf (&out, "OK indices=%d reported_failure=%d bad=%d first=%s", k, nfail, bad, first);
   free (pre.s); free (post.s); free (want.s); free (buf);
 }
